@@ -211,6 +211,26 @@ def _reads_lazy(f, lazies):
     return any(isinstance(n, ast.Attribute) and n.attr in lazies and self_attr(n) for n in ast.walk(f.node))
 
 
+def as_scalar_rules(repo, res):
+    """The @as_scalar decorator (one copy per module) unwraps a length-1 result only for a scalar catalog."""
+    want = {nf_text('result[0] if args[0].isscalar and len(result) == 1 else result'), 'result'}
+    for fn in ('photutils.segmentation.catalog.as_scalar', 'photutils.aperture.stats.as_scalar'):
+        f = repo.functions.get(fn)
+        if f is None:
+            raise AnalysisError(f'vanished anchor: {fn}')
+        inner = [x for x in ast.walk(f.node) if isinstance(x, ast.FunctionDef) and x is not f.node]
+        if len(inner) != 1:
+            raise AnalysisError(f'{fn}: expected one wrapper function')
+        rets = {nf(r.value) for r in ast.walk(inner[0]) if isinstance(r, ast.Return) and r.value is not None}
+        ok = rets == want
+        res.oblige('DECOR', f'{fn}: result[0] only when the catalog is scalar AND the result has length 1', ok, nontrivial=True,
+                   sample={'returns': sorted(rets)})
+        if not ok:
+            res.add(Finding('DECOR', fn, 'as_scalar wrapper', f.loc,
+                            f'{fn}: the wrapper returns {sorted(rets)}; it must return `result[0]` only for a scalar catalog with a '
+                            f'length-1 result (a non-scalar catalog that happens to hold one source keeps its array shape)', {}))
+
+
 def id_lookup_rules(repo, res):
     """get_label(s)/get_id(s) look the requested ids up in the current id array (not by position)."""
     for cn, meth, idattr in ((CATS[0], 'get_labels', 'label'), (CATS[1], 'get_ids', 'id')):
@@ -270,4 +290,12 @@ def run(repo, tier):
     res.floor('DECOR', 50)
     res.floor('SHARE', 20)
     res.exhaustive_rules = ['GETITEM over all __init__ attributes of the five catalog classes', 'SCALAR-SHAPE over all uses']
+    from .common import run_clones, run_loop_twin
+    if run_clones(repo, res) < 25:
+        raise AnalysisError('vanished anchor: cloned shape/moment methods of SourceCatalog and ApertureStats')
+    run_loop_twin(repo, res, {'photutils.segmentation.catalog', 'photutils.aperture.stats'})
+    from . import lazyrules as LR
+    lcs = LR.lazy_classes(repo, only=set(CATS))
+    LR.run_L1(repo, res, PROP, lcs)
+    as_scalar_rules(repo, res)
     return res
